@@ -87,8 +87,12 @@ namespace aio {
 				ue|=reactor::in;
 			if(event & POLLOUT)
 				ue|=reactor::out;
-			if(event & (POLLERR | POLLHUP | POLLPRI))
+			if(event & (POLLERR | POLLPRI))
 				ue|=reactor::err;
+			// hang-up is not an error: what the peer wrote before it closed is still there to read
+			// (then comes EOF) and a write reports the failure itself - wake whoever waits
+			if(event & POLLHUP)
+				ue|=reactor::in | reactor::out;
 			return ue;
 		}
 	};
@@ -339,8 +343,12 @@ namespace aio {
 				ue|=reactor::in;
 			if(event & EPOLLOUT)
 				ue|=reactor::out;
-			if(event & (EPOLLERR | EPOLLPRI | EPOLLHUP))
+			if(event & (EPOLLERR | EPOLLPRI))
 				ue|=reactor::err;
+			// hang-up is not an error: what the peer wrote before it closed is still there to read
+			// (then comes EOF) and a write reports the failure itself - wake whoever waits
+			if(event & EPOLLHUP)
+				ue|=reactor::in | reactor::out;
 			return ue;
 		}
 
